@@ -104,6 +104,19 @@ impl Stream for Timer {
     }
 }
 
+type OperationStream = Pin<Box<dyn Stream<Item = Response> + Send>>;
+
+#[cfg(not(async_graphql_verif))]
+type StreamMap = HashMap<String, OperationStream>;
+
+// verif hook: a fixed hasher makes the order in which ready operations are served reproducible.
+#[cfg(async_graphql_verif)]
+type StreamMap = HashMap<
+    String,
+    OperationStream,
+    std::hash::BuildHasherDefault<std::collections::hash_map::DefaultHasher>,
+>;
+
 pin_project! {
     /// A GraphQL connection over websocket.
     ///
@@ -119,7 +132,7 @@ pin_project! {
         connection_data: Option<Data>,
         data: Option<Arc<Data>>,
         executor: E,
-        streams: HashMap<String, Pin<Box<dyn Stream<Item = Response> + Send>>>,
+        streams: StreamMap,
         #[pin]
         stream: S,
         protocol: Protocols,
@@ -167,7 +180,7 @@ where
             connection_data: None,
             data: None,
             executor,
-            streams: HashMap::new(),
+            streams: StreamMap::default(),
             stream,
             protocol,
             last_msg_at: Instant::now(),
